@@ -29,7 +29,10 @@ Crafted == { Obj(<<A, B>>, <<Arr(<<IntV(1), IntV(2), IntV(3)>>), Obj(<<A>>, <<Ar
              Obj(<<A, M0, N0>>, <<Obj(<<X>>, <<Null>>), IntV(1), Arr(<<Obj(<<X, Y>>, <<Null, IntV(1)>>)>>)>>),
              \* members named with the pointer escape characters themselves, and a member whose name begins with a sibling's
              Obj(<<<<126, 49>>, SL, <<126, 48, 49>>>>, <<IntV(1), Arr(<<IntV(2)>>), IntV(3)>>),
-             Obj(<<A, <<97, 98>>>>, <<IntV(1), Obj(<<A>>, <<Arr(<<>>)>>)>>) }
+             Obj(<<A, <<97, 98>>>>, <<IntV(1), Obj(<<A>>, <<Arr(<<>>)>>)>>),
+             \* a member whose name reads as a percent-encoded character next to the member it would decode to (%41 and A):
+             \* three ordinary characters unless the caller asks for URI decoding
+             Obj(<<<<37, 52, 49>>, <<65>>>>, <<IntV(1), Arr(<<IntV(2)>>)>>) }
 DocsSingle == D1 \cup D2 \cup Crafted
 DocsSeq == { Obj(<<A, B>>, <<Arr(<<IntV(1), IntV(2)>>), Obj(<<A>>, <<Arr(<<>>)>>)>>),
              Arr(<<Arr(<<IntV(1)>>), Obj(<<N1>>, <<IntV(1)>>)>>),
